@@ -178,7 +178,7 @@ package statedb
 // registerTable: read-modify-write of the root entirely inside db.mu; the new root is the
 // old one plus exactly one entry.
 //@ func (*DB).registerTable
-//@   property C01 C02 C05 C06 C09 C10 C19
+//@   property C01 C02 C03 C05 C06 C09 C10 C19
 //@   flag nosafety
 //@   requires !GH_held[addr(db.mu)]
 //@   atcall SortableMutexes.Lock@* requires @no-table-locks-under-root-mutex !GH_held[addr(db.mu)]
@@ -230,7 +230,7 @@ package statedb
 //@   ensures handle.writeTxnState == nil
 
 //@ func (*writeTxnHandle).Commit
-//@   property C01 C02 C05 C06 C09 C10 C19
+//@   property C01 C02 C03 C05 C06 C09 C10 C19
 //@   flag nosafety
 //@   requires handle != nil
 //@   requires handle.writeTxnState != nil ==> handle.writeTxnState.db != nil && !GH_held[addr(handle.writeTxnState.db.mu)] && GH_smus[handle.writeTxnState.smus]
